@@ -552,6 +552,18 @@ def nz_formula(e, env=None):
         for x, y in ((e["lhs"], e["rhs"]), (e["rhs"], e["lhs"])):
             er = unwrap_all_casts(y)
             if isinstance(er, dict) and er.get("k") == "Ref" and er.get("d") == "enumconst":
+                ux = unwrap_all_casts(x)
+                if isinstance(ux, dict) and ux.get("k") == "Ref" and ux.get("d") == "local" and env is not None and path(ux) and env.defs.get(path(ux)[0]) is not None:
+                    dx = unwrap_all_casts(env.defs[path(ux)[0]])
+                    if isinstance(dx, dict) and dx.get("k") == "Cond":
+                        ux = dx
+                if isinstance(ux, dict) and ux.get("k") == "Cond":
+                    # (c ? word : 0) & bit   is   c && (word & bit)     (a mask that is switched off as a whole)
+                    for keep, zero, neg in ((ux.get("a"), ux.get("b"), False), (ux.get("b"), ux.get("a"), True)):
+                        if const_value(zero) == 0 and isinstance(keep, dict):
+                            sub = nz_formula({"k": "Bin", "op": "&", "lhs": keep, "rhs": y, "t": e.get("t"), "l": e.get("l")}, env)
+                            cc = cond(ux["c"], env)
+                            return f_and(f_not(cc) if neg else cc, sub)
                 xp = path(unwrap_all_casts(x))
                 if xp is not None and env is not None:
                     xp = env.resolve_ref_path(xp)
@@ -637,6 +649,10 @@ def cond(e, env=None):
         op = e["op"]
         l, r = e["lhs"], e["rhs"]
         lv, rv = const_value(l), const_value(r)
+        if lv is not None and rv is not None and not isinstance(lv, str) and not isinstance(rv, str):
+            # both sides are constants (a policy parameter of a helper after its expansion): the test is decided
+            res = {"==": lv == rv, "!=": lv != rv, "<": lv < rv, ">": lv > rv, "<=": lv <= rv, ">=": lv >= rv}[op]
+            return ("T",) if res else ("F",)
         # x != 0, x > 0 (unsigned), x == 0, 0 < x ...
         lt = unwrap(l).get("t", "") if isinstance(unwrap(l), dict) else ""
         rt = unwrap(r).get("t", "") if isinstance(unwrap(r), dict) else ""
